@@ -163,7 +163,8 @@ inductive Park where
 `TypeMismatch{expected: "known tuple type"}` that `handle_tuple` raises for an unknown tuple id;
 `panic` is a Rust panic (index out of bounds in `functions[frame.function_index]`, `values[0]` of
 `Equal(0)`, `stack.remove(len)` of `Rotate(0)`, `offset + 1` overflow); `builtinFailed` is whatever
-error class a builtin implementation returned; `oracleInvalid` marks an oracle answer that is not
+error class a builtin implementation returned; `awaitedFailed` is the error of *another* process
+that this one awaited in a `Select` (propagated by `handle_select_process`); `oracleInvalid` marks an oracle answer that is not
 a possible behaviour in the current state (never produced by the executor). -/
 inductive Err where
   | stackUnderflow
@@ -180,6 +181,7 @@ inductive Err where
   | tupleUndefined (id : Nat)
   | panic
   | builtinFailed (cls : String)
+  | awaitedFailed (cls : String)
   | oracleInvalid
   deriving DecidableEq, Repr, Inhabited
 
@@ -192,7 +194,7 @@ def className : Err → String
   | constantUndefined _ => "ConstantUndefined" | fieldAccessInvalid _ => "FieldAccessInvalid"
   | typeMismatch => "TypeMismatch" | invalidArgument => "InvalidArgument"
   | operationNotAllowed => "OperationNotAllowed" | tupleUndefined _ => "TypeMismatch"
-  | panic => "panic" | builtinFailed c => c | oracleInvalid => "oracle-invalid"
+  | panic => "panic" | builtinFailed c => c | awaitedFailed c => c | oracleInvalid => "oracle-invalid"
 
 /-- *Structural* failures — the ones C07 excludes for checked programs: the bytecode itself is
 malformed (underflow, undefined local/constant/function/builtin/tuple id, frame underflow, a Rust
